@@ -7,8 +7,12 @@ import (
 	"strings"
 	"testing"
 
+	"github.com/bartossh/Computantis/src/accountant"
+	"github.com/bartossh/Computantis/src/spice"
+	"github.com/bartossh/Computantis/src/wallet"
 	"pgregory.net/rapid"
 
+	"verif/harness/ref"
 	"verif/harness/sim"
 )
 
@@ -80,6 +84,13 @@ func runLedgerProperty(t *testing.T, prop string) {
 }
 
 func runLedgerCases(t *testing.T, st *stats, prop string, r lmRule) {
+	if prop == "C10" {
+		st.eval(1)
+		st.label("clause:genesis-receiver-is-issuer")
+		if c10GenesisClauseFailed {
+			st.reportOnce("genesis-names-own-issuer", "CreateGenesis with the node's own address as receiver was accepted", map[string]string{"clause": "genesis receiver == issuer"})
+		}
+	}
 	truncEvery := envInt("VERIF_TRUNC_EVERY", 0) // every n-th case includes a truncation (0 = never)
 	caseNo := 0
 	rapid.Check(t, func(rt *rapid.T) {
@@ -97,13 +108,20 @@ func runLedgerCases(t *testing.T, st *stats, prop string, r lmRule) {
 		var m *lm
 		var log []string
 		var err error
-		if cfg.Truncate && (prop == "C01" || prop == "C03" || prop == "C09") {
+		if cfg.Truncate && (prop == "C01" || prop == "C02" || prop == "C03" || prop == "C09") {
 			// truncation cases run the two-node truncation scenario (region, filler, optional late vertex on an old
 			// parent, truncate, re-submissions, follow-ups) with this property's oracles
 			plan := c07Plan{Region: rapid.IntRange(5, 40).Draw(rt, "region"), Extra: rapid.IntRange(0, 40).Draw(rt, "extra"),
-				StaleTip: rapid.Bool().Draw(rt, "stale"), FollowUps: rapid.IntRange(3, 12).Draw(rt, "followUps"), Rogue: true}
-			cfg.Nodes, cfg.Users, cfg.Rogue = 2, 4, true
+				StaleTip: rapid.Bool().Draw(rt, "stale"), FollowUps: rapid.IntRange(3, 12).Draw(rt, "followUps"), Rogue: true,
+				Second: rapid.IntRange(0, 2).Draw(rt, "second") == 0}
+			if prop == "C02" {
+				// C02's premise: no rogue or trusted sealers; conservation is judged after every observation
+				plan.Rogue, plan.StaleTip, plan.Second = false, false, rapid.Bool().Draw(rt, "second2")
+				c07EvalC02 = true
+			}
+			cfg.Nodes, cfg.Users, cfg.Rogue = 2, 4, plan.Rogue
 			m, log, err = c07Run(rt, plan, seed)
+			c07EvalC02 = false
 			if m != nil {
 				m.cfg.Truncate = true
 			}
@@ -160,6 +178,23 @@ func TestC02(t *testing.T) { runLedgerProperty(t, "C02") }
 func TestC03(t *testing.T) { runLedgerProperty(t, "C03") }
 func TestC06(t *testing.T) { runLedgerProperty(t, "C06") }
 func TestC09(t *testing.T) { runLedgerProperty(t, "C09") }
-func TestC10(t *testing.T) { runLedgerProperty(t, "C10") }
+func TestC10(t *testing.T) {
+	// "genesis cannot name its own issuer as receiver": a direct clause, checked before the histories
+	t.Run("genesis-receiver", func(t *testing.T) {
+		k := ref.NewKey("c10-genesis", []byte("g"))
+		b, err := accountant.NewAccountingBook(bg, accountant.Config{}, wallet.NewVerifier(), k, sim.NewLogger())
+		if err != nil {
+			t.Skip(err)
+		}
+		defer b.VerifClose()
+		if _, err := b.CreateGenesis("GENESIS", spice.New(10, 0), nil, k.Addr); err == nil || b.DagLoaded() {
+			t.Errorf("VIOLATION: genesis naming its own issuer as receiver was accepted (err=%v loaded=%v)", err, b.DagLoaded())
+			c10GenesisClauseFailed = true
+		}
+	})
+	runLedgerProperty(t, "C10")
+}
+
+var c10GenesisClauseFailed bool
 
 var _ = os.Getenv
